@@ -189,6 +189,10 @@ Proof.
     + apply Nat.ltb_lt. exact H1.
     + rewrite upd_same. destruct (ds s d); simpl in Heqo0; inversion Heqo0; reflexivity.
     + exact Ed.
+  - destruct (dcb s d) eqn:Ed; [|constructor]. repeat constructor; simpl.
+    + apply Nat.ltb_lt. exact H1.
+    + rewrite upd_same. destruct (ds s d); simpl in *; congruence.
+    + exact Ed.
 Qed.
 
 Lemma PI_tick s ts : PI s -> PI (s <| clock := ts |>).
